@@ -113,7 +113,11 @@ def handleApply (id : String) (args : List String) : String :=
       let v01 := if d.isEmpty then Verdict.unspec else c01 s plainObs
       let v05 := if d.isEmpty then Verdict.unspec else c05 s plainObs
       let v08 := if d.isEmpty then Verdict.unspec else c08 s plainObs trunc nilDoc
-      let v12 := if d.isEmpty then Verdict.unspec else c12 s plainObs
+      -- sizes=12,n,7: what each copy is worth according to the OUTPUTS of the truncated patch (limit stream)
+      let sizes : Option (List (Option Nat)) := (findTag "sizes=" rest).map fun t =>
+        (t.splitOn ",").map fun w => w.toNat?
+      let v12 := if d.isEmpty then Verdict.unspec else
+        (c12 s plainObs).and (match sizes with | some zs => c12sizes o.limit zs plainObs | none => .unspec)
       let v14 : Verdict := if o.ensure then (v01.and v05) else .unspec
       let v13 : Verdict := if o.allow then v01 else .unspec
       let v04 : Verdict := if obs.bad then .viol "panic-or-hang" else .ok
